@@ -1,6 +1,8 @@
 (* Reads cases (one per line: "<suite> <id> k=v ... => <impl observation>") and
    prints "<id>\t<model observation>\t<oracle verdict on the impl observation>". *)
 open Lospan_model
+type cstring = Lospan_model.string
+type string = Stdlib.String.t
 open Util
 
 let suites : (string, (string -> string) -> string -> string * string) Hashtbl.t = Hashtbl.create 32
